@@ -216,3 +216,49 @@ package cryptobyte
 //@ props C23
 //@ pure
 //@ ensures result == (len(bytes) >= 1 && (len(bytes) == 1 || !((bytes[0] == 0 && bytes[1] < 128) || (bytes[0] == 255 && bytes[1] >= 128))))
+
+// ---- ASN.1 INTEGER value decoding ----
+// be9(v, n): big-endian value of the first n <= 9 bytes of v
+//@ pred be9(v, n) = ite(n == 1, v[0], ite(n == 2, v[0]*256 + v[1], ite(n == 3, v[0]*65536 + v[1]*256 + v[2], ite(n == 4, v[0]*16777216 + v[1]*65536 + v[2]*256 + v[3], ite(n == 5, v[0]*4294967296 + v[1]*16777216 + v[2]*65536 + v[3]*256 + v[4], ite(n == 6, v[0]*1099511627776 + v[1]*4294967296 + v[2]*16777216 + v[3]*65536 + v[4]*256 + v[5], ite(n == 7, v[0]*281474976710656 + v[1]*1099511627776 + v[2]*4294967296 + v[3]*16777216 + v[4]*65536 + v[5]*256 + v[6], ite(n == 8, v[0]*72057594037927936 + v[1]*281474976710656 + v[2]*1099511627776 + v[3]*4294967296 + v[4]*16777216 + v[5]*65536 + v[6]*256 + v[7], ite(n == 9, v[0]*18446744073709551616 + v[1]*72057594037927936 + v[2]*281474976710656 + v[3]*1099511627776 + v[4]*4294967296 + v[5]*16777216 + v[6]*65536 + v[7]*256 + v[8], 0)))))))))
+
+//@ func asn1Unsigned
+//@ props C23
+//@ nonnil out
+//@ may_panic_when len(n) == 0
+//@ modifies *out
+//@ ensures result == (len(n) <= 9 && (len(n) < 9 || n[0] == 0) && n[0] < 128)
+//@ ensures implies(result && old(*out) == 0, *out == be9(n, len(n)))
+//@ ensures implies(!result, *out == old(*out))
+//@ loop 1 invariant 0 <= i && i <= length && length == len(n) && length <= 9 && (length < 9 || n[0] == 0) && n[0] < 128
+//@ loop 1 invariant implies(old(*out) == 0, *out == be9(n, i))
+//@ canary ensures implies(result, len(n) <= 8)
+
+//@ func asn1Signed
+//@ props C23
+//@ nonnil out
+//@ modifies *out
+//@ ensures result == (len(n) <= 8)
+//@ ensures implies(!result, *out == old(*out))
+//@ loop 1 invariant 0 <= i && i <= length && length == len(n) && length <= 8
+
+//@ func (*String).readASN1Uint64
+//@ props C23
+//@ nonnil out
+//@ requires *out == 0
+//@ modifies *s
+//@ modifies *out
+//@ let S = *s
+//@ let C = S[hdrlen(S):total(S)]
+//@ ensures result == (valid(S) && S[0] == 2 && len(C) >= 1 && (len(C) == 1 || !((C[0] == 0 && C[1] < 128) || (C[0] == 255 && C[1] >= 128))) &&
+//@ |   len(C) <= 9 && (len(C) < 9 || C[0] == 0) && C[0] < 128)
+//@ ensures implies(result, *out == be9(C, len(C)) && advanced(*s, S, total(S)))
+
+//@ func (*String).readASN1Int64
+//@ props C23
+//@ nonnil out
+//@ modifies *s
+//@ modifies *out
+//@ let S = *s
+//@ let C = S[hdrlen(S):total(S)]
+//@ ensures result == (valid(S) && S[0] == 2 && len(C) >= 1 && (len(C) == 1 || !((C[0] == 0 && C[1] < 128) || (C[0] == 255 && C[1] >= 128))) && len(C) <= 8)
+//@ ensures implies(result, advanced(*s, S, total(S)))
